@@ -194,6 +194,7 @@ class _Stmts:
         self.count = 0
         self.consts = consts or {}
         self.local_tables = {}
+        self.adjacent = None
 
     def unroll(self, st):
         """the copies of the body of a table-driven loop, or None"""
@@ -201,8 +202,12 @@ class _Stmts:
             return None
         it = st.iter
         if isinstance(it, ast.Name):
-            it = self.local_tables.get(it.id) or self.consts.get(it.id)
-            if it is not None and not all(isinstance(e, ast.Tuple) and all(isinstance(x, ast.Constant) for x in e.elts) for e in it.elts):
+            adj = getattr(st, "_sa_adjacent", None)
+            adjacent = adj is not None and adj[0] == it.id
+            it = (adj[1] if adjacent else None) or self.local_tables.get(it.id) or self.consts.get(it.id)
+            # a table bound further away: constants only (a name in it may have been re-bound in between); a table
+            # bound by the statement right before the loop may hold names and attribute reads as well
+            if it is not None and not adjacent and not all(isinstance(e, ast.Tuple) and all(isinstance(x, ast.Constant) for x in e.elts) for e in it.elts):
                 it = None
         if not isinstance(it, (ast.Tuple, ast.List)) or not (1 <= len(it.elts) <= 4):
             return None
@@ -228,7 +233,11 @@ class _Stmts:
 
     def block(self, body):
         out = []
+        prev = None
         for st in body:
+            if isinstance(st, ast.For) and isinstance(st.iter, ast.Name) and isinstance(prev, ast.Assign) and len(prev.targets) == 1 and isinstance(prev.targets[0], ast.Name) and prev.targets[0].id == st.iter.id and isinstance(prev.value, (ast.Tuple, ast.List)):
+                st._sa_adjacent = (st.iter.id, prev.value)
+            prev = st
             out.extend(self.stmt(st))
         return out
 
